@@ -171,6 +171,10 @@ def build(world, with_registry=True, _holder=None):
     reg = b.registry = uberjob.Registry() if (any_reg and with_registry) else None
     for name, sd in world.get("stores", {}).items():
         b.stores[name] = STORE_CLASSES[sd.get("cls", "A")](name)
+    for name, sd in world.get("stores", {}).items():
+        if sd.get("feeds") and sd.get("alias"):
+            # one store, two registry entries: the second entry's store object equals the first one's
+            b.stores[sd["feeds"]] = STORE_CLASSES[sd.get("cls", "A")](sd["feeds"], key=name)
 
     def remember(i, node):
         b.nodes[i] = node
